@@ -19,7 +19,23 @@ from pv.kit.eqspec import EQ, EQUAL, DIFFERENT, UNSPEC   # noqa: F401
 from pv.kit import values as V
 
 NAMES = ['p0', 'p1', 'p2', 'p3']
-SLOTS = ['doc', 'precedence']          # Parameter attributes used for slot watchers
+SLOTS = ['doc', 'precedence', 'tag']   # Parameter attributes used for slot watchers ('tag' is an attribute of its own type,
+                                       # see _tagged: the watched parameters are of a user-defined Parameter type)
+_TAGGED = {}
+
+
+def _tagged(param):
+    """A user-defined Parameter type with one more attribute."""
+    if param not in _TAGGED:
+        class Tagged(param.Parameter):
+            __slots__ = ['tag']
+            _slot_defaults = dict(param.Parameter._slot_defaults, tag=None)
+
+            def __init__(self, default=param.parameterized.Undefined, *, tag=param.parameterized.Undefined, **kw):
+                super().__init__(default=default, **kw)
+                self.tag = tag
+        _TAGGED[param] = Tagged
+    return _TAGGED[param]
 
 
 SETTLEMENT_KINDS = {'spurious-or-duplicate-delivery', 'settlement-matches-no-owed-record', 'not-final-value',
@@ -92,7 +108,7 @@ class Run:
         self.rng = rng
         self.feats = feats
         self.level = level
-        ns = {n: param.Parameter() for n in NAMES}
+        ns = {n: _tagged(param)() for n in NAMES}
         ns['dyn'] = param.Number(default=0.5)       # may hold a value generator; never watched, only triggered
         # in some instance-level runs the last parameter is a constant: the only assignments it accepts are re-assignments
         # of the very object it holds (and trigger); they are announced like any other
@@ -100,13 +116,13 @@ class Run:
         if level == 'instance' and 'twins' not in feats and rng.random() < 0.25:
             # (not together with twin watchers: same-object re-assignments add non-qualifying events to coalesced calls, which
             #  makes attributing a call to one of two identical watchers ambiguous)
-            ns['p3'] = param.Parameter(default=['held', idx], constant=True)
+            ns['p3'] = _tagged(param)(default=['held', idx], constant=True)
             self.const = {'p3'}
         self.shared_pobj = level == 'instance' and rng.random() < 0.2
         if self.shared_pobj:
             # one of the watched parameters has no per-instance Parameter object (per_instance=False): values, watchers and
             # dispatch state are still those of the instance
-            ns['p2'] = param.Parameter(per_instance=False)
+            ns['p2'] = _tagged(param)(per_instance=False)
             # (no Parameter-attribute events in these runs: the attributes of a shared Parameter object belong to the class,
             #  whether a batch opened on an instance covers their announcement is not something the statement settles)
             self.feats = feats = set(feats) - {'slots'}
@@ -647,7 +663,9 @@ class Run:
                 return ('setvary', (n, 'value'))      # a value closely related to the current one (decided at run time)
             return ('set', (n, 'value'), V.pool(rng))
         if c < 0.5 and 'slots' in F:
-            return ('set', (rng.choice(NAMES), rng.choice(SLOTS)), rng.choice(['d1', 'd2', 1.0, 2.0, None, 0.5]))
+            watched = [k_ for w_ in self.reg for k_ in w_['keys'] if w_['what'] != 'value']
+            key = rng.choice(watched) if watched and rng.random() < 0.7 else (rng.choice(NAMES), rng.choice(SLOTS))
+            return ('set', key, rng.choice(['d1', 'd2', 1.0, 2.0, None, 0.5]))
         if c < 0.62 and 'batch' in F:
             return ('batch', [self.gen_op(depth + 1) for _ in range(rng.randint(1, 4))])
         if c < 0.72 and 'update' in F:
@@ -664,6 +682,8 @@ class Run:
             return ('unwatch', rng.randrange(8))
         if c < 0.95 and 'rewatch' in F:
             return ('watch',)
+        if c < 0.96 and self.level == 'class':
+            return ('spawn', rng.choice(NAMES), V.pool(rng))
         if c < 0.98 and 'updatectx' in F:
             return ('updatectx', {n: V.pool(rng) for n in rng.sample(NAMES, rng.randint(1, 2))}, [self.gen_op(depth + 1)])
         return ('setsame', (rng.choice(NAMES), 'value'))
@@ -718,6 +738,15 @@ class Run:
                     c['exiting'] = True
                 self.log('discard-body-end')
             self.ctx.pop()
+        elif k == 'spawn':
+            # an instance of the class is created and used (reading its namespace gives it Parameter objects of its own):
+            # nothing of that concerns the watchers of the class
+            self.log('spawn', op[1])
+            inst = self.cls()
+            inst.param[op[1]]
+            if op[1] not in self.const:
+                setattr(inst, op[1], op[2])
+            self.stats['instances_spawned'] = self.stats.get('instances_spawned', 0) + 1
         elif k == 'update':
             self.do_update(op[1])
         elif k == 'updatectx':
